@@ -44,7 +44,7 @@ def generate(rng, tier):
 
 
 def search_cases(rng, tier):
-    return [L.gen_history(rng, PROFILE, rng.randint(3, 60)) for _ in range(6000)]
+    return [L.gen_history(rng, PROFILE, rng.randint(3, 60)) for _ in range(1500)]
 
 
 def failures(case, obs):
